@@ -370,8 +370,8 @@ func expandSchemaRef(target Schema, parentRefs []string, resolver *schemaLoader,
 		return nil, err
 	}
 
-	if t == nil {
-		// guard for when continuing on error
+	if err != nil || t == nil {
+		// guard for when continuing on error: the unresolved $ref stays in place
 		return &target, nil
 	}
 
